@@ -698,7 +698,9 @@ PPL::Grid::relation_with(const Constraint& c) const {
       {
         if (first_point == nullptr) {
           first_point = &g;
-          const int sign = Scalar_Products::sign(c, g);
+          const int sign = c.is_strict_inequality()
+            ? Scalar_Products::reduced_sign(c.expr, g.expr)
+            : Scalar_Products::sign(c.expr, g.expr);
           if (sign == 0) {
             point_saturates = !c.is_strict_inequality();
           }
@@ -707,21 +709,24 @@ PPL::Grid::relation_with(const Constraint& c) const {
           }
           break;
         }
-        // Not the first point: convert `g' to be a parameter
-        // and fall through into the parameter case.
-        Grid_Generator& gen = const_cast<Grid_Generator&>(g);
+        // Not the first point: work on the parameter `g - first_point'
+        // (computed on a copy: the grid is not to be modified).
+        Grid_Generator gen(g);
         const Grid_Generator& point = *first_point;
         const Coefficient& p_div = point.divisor();
         const Coefficient& g_div = gen.divisor();
         gen.expr.linear_combine(point.expr, p_div, -g_div,
                                 1, gen.expr.space_dimension());
         gen.expr.set_inhomogeneous_term(g_div * p_div);
-        gen.strong_normalize();
         gen.set_is_parameter();
-        PPL_ASSERT(gen.OK());
+        const int sign = c.is_strict_inequality()
+          ? Scalar_Products::reduced_sign(c.expr, gen.expr)
+          : Scalar_Products::sign(c.expr, gen.expr);
+        if (sign != 0) {
+          return Poly_Con_Relation::strictly_intersects();
+        }
       }
-      FALLTHROUGH;
-      // Fall through.
+      break;
 
     case Grid_Generator::PARAMETER:
     case Grid_Generator::LINE:
